@@ -157,6 +157,20 @@ def run(tier, seed):
                         raise
                     for cf, wire, meta in got:
                         gvals.append(wire); gmeta.append((meta["case"], jp))
+    for gi in range(max(6, n // 2)):
+        recursive = (gi % 2 == 1)
+        gspec, scale, keep_zero = C03.gen_spec(rng, 3 * gi + 1 if recursive else gi, recursive)
+        for sname in (("real",) if keep_zero else ("real", "log")):
+            sr = SR(sname, "float64", scale)
+            for method in ("fixed-point", "newton", "linear"):
+                try:
+                    got = C03.grad_cases(gspec, sr, method, rng=rng)
+                except Exception as e:
+                    violations.append(Violation("sum_product(...).backward() raised: %r" % (e,), case=dict(spec=gen.spec_jsonable(gspec), semiring=repr(sr), method=method),
+                                                corr="corr:options-gradient", call="backward"))
+                    continue
+                for cf, wire, meta in got:
+                    gvals.append(wire); gmeta.append((meta["case"], False))
     if gvals:
         gcodes, a = C03.run_model_parallel(gvals, seed, 2)
         nk += a; total += len(gcodes)
